@@ -353,7 +353,7 @@ impl SimScenario {
                 let rec = ws[3..].contains(&"rec");
                 script.borrow_mut().record = rec;
                 script.borrow_mut().canon = ws[3..].contains(&"canon");
-                if ws[3..].contains(&"py") || ws[3..].contains(&"pyd") || ws[3..].contains(&"pys") || ws[3..].contains(&"pyr") || ws[3..].contains(&"pyo") || ws[3..].contains(&"pyu") {
+                if ws[3..].contains(&"py") || ws[3..].contains(&"pyd") || ws[3..].contains(&"pys") || ws[3..].contains(&"pyr") || ws[3..].contains(&"pyo") || ws[3..].contains(&"pyu") || ws[3..].contains(&"pyn") {
                     self.py_procs.insert(ws[1].to_string());
                     // the Python twin gets the rules known so far (py scenarios list the rules before the processes)
                     let toks: Vec<Vec<String>> = self
@@ -372,6 +372,8 @@ impl SimScenario {
                         "ScriptProcOrder"
                     } else if ws[3..].contains(&"pyu") {
                         "ScriptProcUnpicklable"
+                    } else if ws[3..].contains(&"pyn") {
+                        "ScriptProcNegative"
                     } else {
                         "ScriptProcDefault"
                     };
